@@ -257,7 +257,7 @@ def rule_boundary(ctx) -> None:
         ifs = [m for m in cfg.nodes if m.kind == "cond" and isinstance(m.ast, ast.Name) and cfg.dominates(n, m)
                and any(d.node is n for d in rd.reaching(m.ast.id, m))]
         if not ifs:
-            ctx.undecided("C17.BOUNDARY", f"{fn.qual}/yield-block@{n.lineno}", fn.loc(c), "no `if reason:` consuming this decision")
+            ctx.undecided("C17.BOUNDARY", ctx.okey(f"{fn.qual}/yield-block"), fn.loc(c), "no `if reason:` consuming this decision")
             continue
         cond = ifs[0]
         tb = [t for t, l in cond.succ if l == "T"][0]
